@@ -15,6 +15,8 @@ from ..ceval import CInterp, Sym
 from ..cfront import ccfg, show, node_calls
 from . import cside
 from .cside import ccheck
+from .sem import nt
+from ..sympath import summaries, normal
 
 OPS = {'__lt__': 0, '__le__': 1, '__eq__': 2, '__ne__': 3, '__gt__': 4, '__ge__': 5}
 OPNAME = {v: k for k, v in OPS.items()}
@@ -249,6 +251,72 @@ def compare_tables(rep, rule, site, table, config, node=None):
     return not bad
 
 
+def py_hash_key(h):
+    """problems of the Python __hash__ (empty = holds), over path summaries"""
+    # over path summaries: a miss (AttributeError on the memo) computes
+    # hash((self.__name__, self.__module__)), stores it in the memo and
+    # returns it; a hit returns the memo; nothing else is hashed
+    KEY = 'hash((self.__name__, self.__module__))'
+    MEMO = 'self._v_cached_hash'
+    probs, hit, miss = [], 0, 0
+    for ps in normal(summaries(h)):
+        hashes = [e for e in ps.events if e.kind == 'call' and
+                  isinstance(e.r.func, ast.Name) and e.r.func.id == 'hash']
+        sts = ps.stores()
+        ret = nt(ps.ret)
+        if not hashes and not sts:
+            hit += 1
+            if ret != MEMO:
+                probs.append('hit path returns `%s`' % ret[:60])
+            continue
+        miss += 1
+        if [nt(e.r) for e in hashes] != [KEY]:
+            probs.append('hashes %s' % [nt(e.r)[:60] for e in hashes])
+        if [(nt(e.r), nt(e.val)) for e in sts] != [(MEMO, KEY)]:
+            probs.append('stores %s' % [repr(e)[:80] for e in sts])
+        if ret not in (MEMO, KEY):
+            probs.append('miss path returns `%s`' % ret[:60])
+    if not (hit and miss):
+        probs.append('hit paths %d, miss paths %d' % (hit, miss))
+    return probs
+
+
+def c_hash_key(u):
+    """problems of IB__hash__ over its path summaries: a memo hit returns the
+    memo; a miss hashes PyTuple_Pack(2, name, module), stores and returns it;
+    error paths return -1"""
+    from .csem import S, calls, ret
+    PACK = 'PyTuple_Pack(2, self->__name__, self->__module__)'
+    MEMO = 'self->_v_cached_hash'
+    probs, hit, miss = [], 0, 0
+    for ps in S(u, 'IB__hash__'):
+        if ps.kind != 'return':
+            continue
+        hs = calls(ps, 'PyObject_Hash')
+        sts = [e for e in ps.events if e.kind == 'store']
+        r = ret(ps)
+        if not hs:
+            if sts:
+                probs.append('stores %s without hashing' % [repr(e)[:60] for e in sts])
+            if r == '-1':
+                continue
+            hit += 1
+            if r != MEMO or ps.facts.get(MEMO) is not True:
+                probs.append('returns `%s` without a computed hash' % r[:60])
+            continue
+        miss += 1
+        want = 'PyObject_Hash(%s)' % PACK
+        if [show(e.e) for e in hs] != [want]:
+            probs.append("hashes %s" % [show(e.e)[:80] for e in hs])
+        if [(show(e.e), show(e.val)) for e in sts] != [(MEMO, want)]:
+            probs.append('stores %s' % [repr(e)[:80] for e in sts])
+        if r not in (MEMO, want):
+            probs.append('miss path returns `%s`' % r[:60])
+    if not (hit and miss):
+        probs.append('hit paths %d, miss paths %d' % (hit, miss))
+    return sorted(set(probs))
+
+
 def run(rep):
     repo = rep.repo
     mod = repo.module('interface.py')
@@ -284,25 +352,18 @@ def run(rep):
     # ---- R12.2 ---------------------------------------------------------------
     ib = find_def(mod, 'InterfaceBase')
     h = methods_of(ib)['__hash__']
-    hs = find_all(h, 'hash($x)')
-    ok = len(hs) == 1 and match('hash((self.__name__, self.__module__))', hs[0][0]) is not None
-    st = [n for n in ast.walk(ib) if isinstance(n, ast.Assign) and any(
-        isinstance(t, ast.Attribute) and t.attr == '_v_cached_hash' for t in n.targets)]
+    probs = py_hash_key(h)
+    ok = not probs
+    st = [n for n in ast.walk(ib) if isinstance(n, (ast.Assign, ast.AugAssign)) and any(
+        isinstance(t, ast.Attribute) and t.attr == '_v_cached_hash'
+        for t in (n.targets if isinstance(n, ast.Assign) else [n.target]))]
     okst = all(n in list(ast.walk(h)) for n in st)
     rep.check('R12.2', 'InterfaceBase.__hash__', ok and okst,
-              'hash((self.__name__, self.__module__)); memo written only in '
-              '__hash__ (%s)' % okst, construct='hash-key', node=h)
-    f = u.func('IB__hash__')
-    g = ccfg(f)
-    pk = [c for n in g.nodes for c in node_calls(n, 'PyTuple_Pack')]
-    hh = [c for n in g.nodes for c in node_calls(n, 'PyObject_Hash')]
-    ok = len(pk) == 1 and [show(a) for a in pk[0].a[1]] == \
-        ['2', 'self->__name__', 'self->__module__'] and len(hh) == 1
-    if ok:
-        from ..cfront import c_resolve
-        hn = [n for n in g.nodes if node_calls(n, 'PyObject_Hash')][0]
-        arg = c_resolve(g, hn, hh[0].a[1][0])
-        ok = arg is not None and arg.k == 'call' and arg.a[0] == 'PyTuple_Pack'
+              'hash((self.__name__, self.__module__)) computed on a memo miss, '
+              'stored and returned; memo written only in __hash__ (%s) %s'
+              % (okst, sorted(set(probs))[:3]), construct='hash-key', node=h)
+    cprobs = c_hash_key(u)
+    ok = not cprobs
     writers = []
     for name, fn in u.funcs.items():
         for n in ccfg(fn).nodes:
@@ -314,7 +375,7 @@ def run(rep):
                     writers.append(name)
     ccheck(rep, 'R12.2', 'IB__hash__', ok and set(writers) <= {'IB__hash__'},
            'hashes PyTuple_Pack(2, self->__name__, self->__module__); memo '
-           'written by %s' % sorted(set(writers)), construct='hash-key')
+           'written by %s %s' % (sorted(set(writers)), cprobs[:3]), construct='hash-key')
 
     # ---- R12.3 ---------------------------------------------------------------
     imp = find_def(dmod, 'Implements')
